@@ -306,23 +306,23 @@ Proof.
   rewrite H in L1. unfold zlen in L1. rewrite firstn_length, skipn_length in L1. unfold zlen in H3. lia.
 Qed.
 
-Lemma copy_struct_invalid_dst fuel strict w dst l src w' :
-  p_valid dst = false -> copy_struct fuel strict w dst l src = Ok w' -> False.
-Proof. intros Hv. destruct fuel; cbn [copy_struct]; [discriminate|]. rewrite Hv. cbn. discriminate. Qed.
+Lemma copy_struct_invalid_dst fp fuel strict w dst l src w' :
+  p_valid dst = false -> copy_struct_gen fp fuel strict w dst l src = Ok w' -> False.
+Proof. intros Hv. destruct fuel; cbn [copy_struct_gen]; [discriminate|]. rewrite Hv. cbn. discriminate. Qed.
 
 (* ------------------------------------------------------------------ the frame theorem *)
 Definition Rfrom (p : Ptr) : Z -> Z -> Prop := fun i k => i = p_seg p /\ p_off p <= k.
 
-Definition P_wp (fuel : nat) : Prop := forall strict w dsid off l src fc w',
+Definition P_wp (fp : bool) (fuel : nat) : Prop := forall strict w dsid off l src fc w',
   inv (w_dst w) -> 0 <= dsid < nsegs (w_dst w) -> sz_ok src ->
   ((fc || is_src l) = false -> p_valid src = true -> 0 <= p_seg src < nsegs (w_dst w)) ->
-  write_ptr fuel strict w dsid off l src fc = Ok w' ->
+  write_ptr_gen fp fuel strict w dsid off l src fc = Ok w' ->
   G (w_dst w) (w_src w) w' (Rword dsid off).
 
-Definition P_cs (fuel : nat) : Prop := forall strict w dst l src w',
+Definition P_cs (fp : bool) (fuel : nat) : Prop := forall strict w dst l src w',
   inv (w_dst w) -> 0 <= p_seg dst < nsegs (w_dst w) -> wf_size (p_size dst) -> 0 <= p_off dst <= 4294967295 ->
   sz_ok src ->
-  copy_struct fuel strict w dst l src = Ok w' ->
+  copy_struct_gen fp fuel strict w dst l src = Ok w' ->
   G (w_dst w) (w_src w) w' (Rfrom dst).
 
 Lemma padToWord_nonneg sz : 0 <= padToWord sz.
@@ -358,13 +358,13 @@ Proof.
   injection EE as <-. unfold maxSegmentSize in *. repeat split; auto; nia.
 Qed.
 
-Theorem frame_all : forall fuel, P_wp fuel /\ P_cs fuel.
+Theorem frame_all : forall fp fuel, P_wp fp fuel /\ P_cs fp fuel.
 Proof.
-  induction fuel as [|f [IHwp IHcs]].
+  intros fp. induction fuel as [|f [IHwp IHcs]].
   { split; intros ? ? ? ? ? ? ?; cbn; intros; discriminate. }
   split.
   - (* ---------------- write_ptr ---------------- *)
-    intros strict w dsid off l src fc w' Hinv Hd Hsz Hsrc. cbn [write_ptr].
+    intros strict w dsid off l src fc w' Hinv Hd Hsz Hsrc. cbn [write_ptr_gen].
     set (m := w_dst w) in *.
     destruct (negb (p_valid src)) eqn:EV.
     { unfold lift0. destruct (writeRawPointer m dsid off 0) as [m'| |] eqn:EW; cbn [bind]; try discriminate.
@@ -378,9 +378,14 @@ Proof.
         unfold lift0. destruct (writeRawPointer m dsid off v) as [m'| |] eqn:EW; cbn [bind]; try discriminate.
         intros H. apply Ok_inj in H. subst w'. eapply G_write; [exact Hinv|lia|exact EW]. }
       destruct (fc || is_src l || p_member src) eqn:EC.
-      * destruct (alloc m dsid (totalSize (p_size src))) as [[[m1 nsid] naddr]| |] eqn:EA; cbn [bind]; try discriminate.
-        set (dstp := mkPtr true nsid naddr 0 (p_size src) maxDepth KStruct false false false).
-        destruct (copy_struct f strict (w_set_dst w m1) dstp l src) as [w2| |] eqn:ECS; cbn [bind]; try discriminate.
+      * cbv zeta.
+        set (csz := if fp then mkOS (padToWord (DataSize (p_size src))) (PointerCount (p_size src)) else p_size src).
+        assert (Hcsz : wf_size csz).
+        { subst csz. destruct fp; [|exact Hsz]. destruct Hsz as [[H1 H2] H3]. unfold wf_size, padToWord, u32.
+          cbn [DataSize PointerCount]. lia. }
+        destruct (alloc m dsid (totalSize csz)) as [[[m1 nsid] naddr]| |] eqn:EA; cbn [bind]; try discriminate.
+        set (dstp := mkPtr true nsid naddr 0 csz maxDepth KStruct false false false).
+        destruct (copy_struct_gen fp f strict (w_set_dst w m1) dstp l src) as [w2| |] eqn:ECS; cbn [bind]; try discriminate.
         destruct (of_opt_panic (rawStructPointer 0 (p_size dstp))) as [raw| |]; cbn [bind]; try discriminate.
         intros HP.
         destruct (G_alloc w dsid _ m1 nsid naddr Hinv Hd (totalSize_nn _) EA) as (GA & NS & AD & AR).
@@ -483,7 +488,7 @@ Proof.
       * unfold lift0. destruct (writeRawPointer m dsid off _) as [m2| |] eqn:EW; cbn [bind]; try discriminate.
         intros H. apply Ok_inj in H. subst w'. eapply G_write; [exact Hinv|lia|exact EW].
   - (* ---------------- copy_struct ---------------- *)
-    intros strict w dst l src w' Hinv Hd Hds Hdo Hsz. cbn [copy_struct].
+    intros strict w dst l src w' Hinv Hd Hds Hdo Hsz. cbn [copy_struct_gen].
     set (m := w_dst w) in *.
     destruct (negb (p_valid dst)); [discriminate|].
     destruct (negb (p_valid src)) eqn:EV.
@@ -552,7 +557,7 @@ Theorem write_ptr_frame fuel strict w dsid off l src w' :
   keeps (w_dst w) (w_dst w') (Rword dsid off) /\ inv (w_dst w') /\
   nsegs (w_dst w) <= nsegs (w_dst w') /\ w_src w' = w_src w.
 Proof.
-  intros Hi Hd Hs Hr H. destruct (frame_all fuel) as [P _].
+  intros Hi Hd Hs Hr H. destruct (frame_all true fuel) as [P _].
   apply (P strict w dsid off l src false w'); auto.
   intros E Hv. apply Hr; auto. destruct l; [reflexivity|discriminate].
 Qed.
@@ -565,7 +570,7 @@ Theorem copy_struct_frame fuel strict w dst l src w' :
   copy_struct fuel strict w dst l src = Ok w' ->
   keeps (w_dst w) (w_dst w') (Rfrom dst) /\ inv (w_dst w') /\
   nsegs (w_dst w) <= nsegs (w_dst w') /\ w_src w' = w_src w.
-Proof. intros. destruct (frame_all fuel) as [_ P]. apply (P strict w dst l src w'); auto. Qed.
+Proof. intros. destruct (frame_all true fuel) as [_ P]. apply (P strict w dst l src w'); auto. Qed.
 
 (* [copy_fresh]: a deep copy (assignment of a pointer from another message, of a list member,
    or any forced copy) leaves every byte of the source untouched - the source message is
@@ -583,7 +588,7 @@ Theorem copy_fresh fuel strict w dsid off l src fc w' i base n :
    (i <> dsid \/ base + n <= off \/ off + 8 <= base) ->
    slice (mem (w_dst w') i) base n = slice (mem (w_dst w) i) base n).
 Proof.
-  intros Hi Hd Hs Hr H. destruct (frame_all fuel) as [P _].
+  intros Hi Hd Hs Hr H. destruct (frame_all true fuel) as [P _].
   destruct (P strict w dsid off l src fc w' Hi Hd Hs Hr H) as (K & _ & _ & S).
   split; [exact S|]. intros H0 H1 H2 H3 H4 H5. eapply keeps_slice; eauto.
   intros k Hk [X1 X2]. lia.
